@@ -283,25 +283,36 @@ def Sk.size : Sk → Nat
   | .alt a b => a.size + b.size + 1
   | .star a => a.size + 1
 
-/-- all the remainders after matching a prefix of the input against the skeleton; structural on the fuel (one unit per
-    level of the skeleton and per loop iteration; an iteration must consume input) -/
-def matchSk : Nat → Sk → List RTok → List (List RTok)
-  | 0, _, _ => []
-  | _ + 1, .eps, inp => [inp]
-  | _ + 1, .tok t, inp =>
+def dedupNat : List Nat → List Nat
+  | [] => []
+  | r :: rs => r :: (dedupNat rs).filter (· != r)
+
+/-- positions reachable by repeating `step` from the frontier (each position is expanded once) -/
+def closure : Nat → (List Nat → List Nat) → List Nat → List Nat → List Nat
+  | 0, _, _, acc => acc
+  | n + 1, step, fr, acc =>
+    let new := (step fr).filter (fun x => !acc.contains x)
+    if new.isEmpty then acc else closure n step new (acc ++ new)
+
+/-- the positions of the input reachable by matching the skeleton from position `p`; structural on the fuel (one unit
+    per level of the skeleton); a loop iteration must consume input -/
+def matchSk : Nat → Sk → Array RTok → Nat → List Nat
+  | 0, _, _, _ => []
+  | _ + 1, .eps, _, p => [p]
+  | _ + 1, .tok t, inp, p =>
     (match t with
-     | .chars s => if isBlank (bytesOf s) then [inp] else []     -- white-space literals are not compared
-     | .text _ _ _ => [inp]                                       -- an operand may print nothing
+     | .chars s => if isBlank (bytesOf s) then [p] else []     -- white-space literals are not compared
+     | .text _ _ _ => [p]                                       -- an operand may print nothing
      | _ => []) ++
-    (match inp with
-     | r :: rest => if tokMatch t r then [rest] else []
-     | [] => [])
-  | f + 1, .seq a b, inp => (matchSk f a inp).flatMap (fun rest => matchSk f b rest)
-  | f + 1, .alt a b, inp => matchSk f a inp ++ matchSk f b inp
-  | f + 1, .star a, inp =>
-    inp :: ((matchSk f a inp).filter (fun rest => rest.length < inp.length)).flatMap (fun rest => matchSk f (.star a) rest)
+    (match inp[p]? with
+     | some r => if tokMatch t r then [p + 1] else []
+     | none => [])
+  | f + 1, .seq a b, inp, p => dedupNat ((matchSk f a inp p).flatMap (fun q => matchSk f b inp q))
+  | f + 1, .alt a b, inp, p => dedupNat (matchSk f a inp p ++ matchSk f b inp p)
+  | f + 1, .star a, inp, p =>
+    closure (inp.size + 1) (fun fr => dedupNat (fr.flatMap (fun q => (matchSk f a inp q).filter (fun r => q < r)))) [p] [p]
 
 /-- the plugin sends the tokens of a real document without its white-space-only character data -/
-def accepts (sk : Sk) (inp : List RTok) : Bool := (matchSk (sk.size + inp.length + 1) sk inp).any (·.isEmpty)
+def accepts (sk : Sk) (inp : List RTok) : Bool := (matchSk (sk.size + 1) sk inp.toArray 0).contains inp.length
 
 end Gama.XmlDoc
